@@ -340,6 +340,14 @@ Proof.
   rewrite (H x y); [|left; reflexivity|exact Hxy]. f_equal. apply IH. intros; apply H; auto. right; auto.
 Qed.
 
+Lemma Forall2_In_r {T U} (R : T -> U -> Prop) (a : list T) (b : list U) y :
+  Forall2 R a b -> In y b -> exists x, In x a /\ R x y.
+Proof.
+  induction 1 as [|x y' a b Hxy _ IH]; cbn; [tauto|]. intros [->|H].
+  - exists x. auto.
+  - destruct (IH H) as (x' & Hi & Hr). exists x'. auto.
+Qed.
+
 (* unchanged architecture: the re-created network has exactly the old parameters *)
 Theorem same_arch_same_params_lemma : forall (old new : named),
   NoDup (map fst old) -> same_sig old new -> preserve old new = old.
@@ -371,8 +379,7 @@ Proof.
     rewrite E. reflexivity.
   - unfold load_error. apply negb_false_iff. apply andb_true_iff. split.
     + apply forallb_forall. intros [k p] Hin. cbn [fst snd].
-      destruct (Forall2_in_r _ _ _ _ Hs Hin) as ([k' sp] & Hin' & Hk & Hsz)
-        || (apply Forall2_flip in Hs; idtac).
+      destruct (Forall2_In_r _ _ _ _ Hs Hin) as ([k' sp] & Hin' & Hk & Hsz).
       cbn in Hk, Hsz. subst k'. rewrite (lookup_NoDup k self sp Hnd Hin'). apply size_eqb_eq. exact Hsz.
     + apply forallb_forall. intros [k sp] Hin. cbn [fst].
       assert (Hk : In k (map fst fresh)).
@@ -410,10 +417,47 @@ Proof.
   destruct (size_eqb (p_size op) (p_size p)); [injection Hy as <-; reflexivity|].
   destruct (shrink_guard (p_size op) (p_size p)) eqn:G; cbn [negb] in Hy; [|discriminate].
   unfold shrink_guard in G. apply andb_true_iff in G as [Gl Gs]. apply Nat.eqb_eq in Gl. apply size_eqb_eq in Gs.
-  destruct (Nat.eqb (length (p_size p)) 1) eqn:R1; injection Hy as <-; do 2 f_equal.
-  - apply Nat.eqb_eq in R1. eapply overlap_d_eq; eauto.
-    destruct (p_size op) as [|? [|? ?]], (p_size p) as [|? [|? ?]]; cbn in *; try lia; reflexivity.
-  - eapply overlap_d_eq; eauto.
+  assert (E2 : overlap_d 2 (p_data op) (p_data p) = overlap (p_data op) (p_data p))
+    by (eapply overlap_d_eq; eauto).
+  destruct (Nat.eqb (length (p_size p)) 1) eqn:R1.
+  - apply Nat.eqb_eq in R1.
+    assert (E1 : overlap_d 1 (p_data op) (p_data p) = overlap (p_data op) (p_data p)).
+    { eapply overlap_d_eq; eauto.
+      destruct (p_size op) as [|? [|? ?]], (p_size p) as [|? [|? ?]]; cbn in *; try lia; reflexivity. }
+    rewrite E1 in Hy. injection Hy as <-. reflexivity.
+  - rewrite E2 in Hy. injection Hy as <-. reflexivity.
+Qed.
+
+Corollary shrink_keeps_common_lemma : forall (old new r : named) k op p,
+  wf_named old -> wf_named new -> shrink_preserve old new = Some r ->
+  lookup k old = Some op -> lookup k new = Some p ->
+  exists rp, lookup k r = Some rp /\
+    forall ix a b, get (p_data op) ix = Some a -> get (p_data p) ix = Some b -> get (p_data rp) ix = Some a.
+Proof.
+  intros old new r k op p Wo Wn H Ho Hn. rewrite (shrink_eq_preserve_lemma old new r Wo Wn H).
+  apply preserve_keeps_common_lemma; assumption.
+Qed.
+
+(* inside the guard shrink_preserve_parameters does not fail *)
+Lemma sequence_all_some {T} (l : list (option T)) : (forall x, In x l -> x <> None) -> exists r, sequence l = Some r.
+Proof.
+  induction l as [|[x|] l IH]; cbn; intros H; eauto.
+  - destruct IH as [r ->]; [intros; apply H; auto|]. eauto.
+  - exfalso. apply (H None); auto.
+Qed.
+
+Theorem shrink_total_lemma : forall (old new : named),
+  (forall k op p, lookup k old = Some op -> In (k, p) new ->
+     p_size op = p_size p \/ shrink_guard (p_size op) (p_size p) = true) ->
+  exists r, shrink_preserve old new = Some r.
+Proof.
+  intros old new H. unfold shrink_preserve. apply sequence_all_some.
+  intros x Hx. apply in_map_iff in Hx as ([k p] & <- & Hin). unfold shrink_one.
+  destruct (lookup k old) as [op|] eqn:Ho; [|discriminate].
+  destruct (H k op p Ho Hin) as [E|G].
+  - apply size_eqb_eq in E. rewrite E. discriminate.
+  - destruct (size_eqb _ _); [discriminate|]. rewrite G. cbn [negb].
+    destruct (Nat.eqb _ 1); discriminate.
 Qed.
 
 (* ---- the fixed-point form used by the end-to-end correspondence check ---------------------- *)
@@ -421,12 +465,12 @@ Theorem preserve_idem_lemma : forall (old new : named),
   preserve old (preserve old new) = preserve old new.
 Proof.
   intros old new. unfold preserve. rewrite map_map. apply map_ext. intros [k p].
-  unfold preserve_one at 2. destruct (lookup k old) as [op|] eqn:Ho.
-  - destruct (size_eqb (p_size op) (p_size p)) eqn:E; unfold preserve_one; rewrite Ho; cbn [p_size p_data].
+  unfold preserve_one. destruct (lookup k old) as [op|] eqn:Ho.
+  - destruct (size_eqb (p_size op) (p_size p)) eqn:E; rewrite Ho; cbn [p_size p_data].
     + assert (E2 : size_eqb (p_size op) (p_size op) = true) by (apply size_eqb_eq; reflexivity).
       rewrite E2. reflexivity.
     + rewrite E. rewrite overlap_idem. reflexivity.
-  - unfold preserve_one. rewrite Ho. reflexivity.
+  - rewrite Ho. reflexivity.
 Qed.
 
 Theorem fixpoint_keeps_common_lemma : forall (old r : named),
